@@ -7,7 +7,11 @@
 (* session's first / last block) go to the logged state of the Commit      *)
 (* event of that height.  Failures are tagged with the property they        *)
 (* contradict; "C31K" / "C32K" mark the known-finding patterns, which are   *)
-(* excluded from C31 / C32 and reported by the *_Strict invariants.         *)
+(* excluded from C31 / C32, printed as <<"KNOWN-PATTERN", line, tag>> and   *)
+(* reported by the *_Strict invariants.  "dispatch" events (the node served *)
+(* an off-chain dispatch: session cached) carry no obligation of their own: *)
+(* no operator of ChainClaims reads the cache, so every later claim / proof *)
+(* is judged exactly as on a node that never dispatched.                    *)
 (***************************************************************************)
 EXTENDS ChainClaims, IOUtils, Json
 
@@ -106,7 +110,8 @@ TraceNext ==
                    \cup (IF e.ev = "index" THEN IndexTags(e) ELSE {})
                    \cup (IF "st" \in DOMAIN e /\ ~WellFormed(e.st) THEN {"C32"} ELSE {})
            new  == [i \in 1..Cardinality(tags) |-> <<l, SetToSeq(tags)[i]>>]
-       IN /\ cfgLine' = cl
+       IN /\ \A t \in tags \cap {"C31K", "C32K"} : PrintT(<<"KNOWN-PATTERN", l, t>>)
+          /\ cfgLine' = cl
           /\ commitLine' = IF e.ev = "reset" THEN <<>> ELSE IF e.ev = "Commit" THEN Put(commitLine, e.h, l) ELSE commitLine
           /\ commitCfg'  = IF e.ev = "reset" THEN <<>> ELSE IF e.ev = "Commit" THEN Put(commitCfg, e.h, cl) ELSE commitCfg
           /\ paid' = IF e.ev = "reset" THEN {}
